@@ -23,6 +23,21 @@ TEXT = {
         "level_text": "Exploration: same machine as C04 focused on the deletion clauses: exact removal set of each kind-5, suppression while retained, re-insertion after it left, and no effect of one author's events on another's except the capacity victim.",
         "level_note": "Trusted: harness/model/store.go (Refs/OpenRef). e values are ids, a values are addresses (the two are not mixed); self-referencing deletion requests cannot exist with hashed ids.",
     },
+    "C17": {
+        "technique": "property-based testing (rapid): generated middleware stacks / NIP-11 documents x generated message sequences at, below and above each limit, pushed through the real middleware plumbing with barrier messages; oracle = own re-statement of every limit",
+        "level_text": "Exploration over configurations and inputs: each case builds a stack (or the NIP-11 chain), sends 4-14 messages sized around the limits and checks, per message, forwarded-unchanged vs exactly-one-rejection-of-the-right-type, plus pointer-equal ordered pass-through of server messages.",
+        "level_note": "Trusted: harness/handlers/mwmodel.go. Real clock for created_at limits with a 5 s safety margin (closer cases are excluded and counted). Lengths measured on ASCII.",
+    },
+    "C18": {
+        "technique": "stateful property-based testing (rapid): per-connection models (quota set; window of the last W distinct ids) for 1-4 sessions on one shared middleware, interleaved by a generated schedule or run concurrently",
+        "level_text": "Exploration of REQ/CLOSE/EVENT histories over small id alphabets so that every quota/window boundary is crossed in both directions; each session carries its own model, so state leaking between connections is a mismatch.",
+        "level_note": "Trusted: the window/quota models in harness/handlers/c18_test.go. An id seen but outside the window may go either way.",
+    },
+    "C19": {
+        "technique": "stateful property-based testing (rapid): generated multi-session schedules against a tally model; Registry.Gather() compared with the model after every barrier echo; concurrent variant compares totals",
+        "level_text": "Exploration of message histories incl. repeated REQ/CLOSE, server CLOSED and sessions ending with open subscriptions; every quiescent point is compared exactly (gauges, per-type and per-kind counters) and pass-through is pointer-equal.",
+        "level_note": "Trusted: the tally model in harness/handlers/c19_test.go. The harness's own barrier CLOSE / marker NOTICE messages are part of the tallies.",
+    },
     "C10": {
         "technique": "property-based testing (rapid): grammar-generated wire texts with near-miss mutations against a no-panic / completeness / decode-encode-decode oracle, value round trips for all 14 types, repository corpus replay; native go fuzz target in the thorough tier",
         "level_text": "Exploration: tens of thousands of generated and mutated JSON texts per run go through ParseClientMsg and json.Unmarshal of all 14 exported types (no panic, complete value, idempotent re-decode), and generated values of every type are round-tripped; thorough adds a coverage-guided fuzz campaign with the same oracle inside the target.",
